@@ -165,6 +165,94 @@ def verus_conflict_source(repo):
     return VERUS_CONFLICT_HEADER + block_text + "    }\n}\n", meta
 
 
+# ---------------------------------------------------------------------------
+# LR driver: the statements of <LRParser as Parser>::parse_with_context from `let mut state = parse_stack.state();`
+# to the end of the function (the whole shift/reduce/accept loop and the final `Ok(builder.get_result())`).
+
+DRIVER_DECLARED = ["builder", "context", "input", "layout_parser", "parse_stack", "self"]
+DRIVER_START = "let mut state = parse_stack.state();"
+# statements of parse_with_context in front of the range (comments, whitespace and log! statements removed): the lift is
+# refused (exit 2) when they change, because the types and initial values of the range's free variables come from them
+DRIVER_PREFIX = ("letmutparse_stack:ParseStack<S,I,C,TK>=ParseStack::new(context,self.start_state);"
+                 "letmutbuilder=self.builder.borrow_mut();"
+                 "letlayout_parser:LayoutParser<'i,C,S,P,TK,NTK,D,L,I>=self.has_layout.then(||{LRParser::new_default("
+                 "self.definition,S::default_layout().expect(\"Layout state not defined.\"),true,false,Rc::clone(&self.lexer),"
+                 "RefCell::new(SliceBuilder::new(input)),)});")
+
+
+def strip_logs(src, lo, hi):
+    """normalised token text of [lo, hi) with `log!(..);` statements removed"""
+    t = src.toks
+    out, i = [], lo
+    while i < hi:
+        if t[i].kind == "ident" and t[i].text in ("log", "logn") and t[src.sig(i + 1)].text == "!":
+            k = src.sig(src.sig(i + 1) + 1)
+            close = src.match(k)
+            q = src.sig(close + 1)
+            i = (q if t[q].text == ";" else close) + 1
+            continue
+        if t[i].kind not in ("ws", "comment"):
+            out.append(t[i].text)
+        i += 1
+    return "".join(out)
+
+
+def driver_block_range(repo):
+    rel = "rustemo/src/lr/parser.rs"
+    src = rsx.Source(os.path.join(repo, rel))
+    imp = src.find_impl(r"^impl < 'i , C , S , P , I , TK , NTK , D , L , B > Parser < 'i , I , C , S , TK > for LRParser", has="parse_with_context")
+    fn = imp.child("fn", "parse_with_context")
+    t = src.toks
+    body_s = t[fn.body_open].e
+    body = src.text[body_s:t[fn.body_close].s]
+    if body.count(DRIVER_START) != 1:
+        raise ExtractError("driver block: anchor `%s` not found exactly once in parse_with_context" % DRIVER_START)
+    off = body_s + body.index(DRIVER_START)
+    lo = next(i for i in range(fn.body_open, fn.body_close) if t[i].s == off)
+    hi = fn.body_close
+    prefix = strip_logs(src, fn.body_open + 1, lo)
+    if prefix != DRIVER_PREFIX:
+        raise ExtractError("driver block: the statements of parse_with_context in front of the range changed: %r" % prefix[:300])
+    sig = "".join(x.text for x in t[fn.kw:fn.body_open] if x.kind not in ("ws", "comment"))
+    if sig != "fnparse_with_context(&self,context:&mutC,input:&'iI)->Result<Self::Output>":
+        raise ExtractError("driver block: signature of parse_with_context changed: %r" % sig)
+    # `type Output = B::Output;`
+    out_ty = imp.child("type", "Output").text()
+    if re.sub(r"\s+", "", out_ty) != "typeOutput=B::Output;":
+        raise ExtractError("driver block: associated type Output changed: %r" % out_ty)
+    block_text = src.text[t[lo].s:t[hi].s]
+    outside = bound_names_outside(src, fn, lo, hi)
+    used = set(idents(src, lo, hi))
+    inside = bound_names_inside(src, lo, hi)
+    free = sorted(((outside & used) - inside) | ({"self"} if "self" in used else set()))
+    if free != DRIVER_DECLARED:
+        raise ExtractError(f"driver block: free variables changed: now {free}, declared {DRIVER_DECLARED}")
+    # impl header pieces, verbatim
+    head = src.text[t[imp.start].s:t[imp.body_open].s]
+    m = re.match(r"\s*impl\s*(<[^>]*>)\s*Parser\s*<[^>]*>\s*for\s*(LRParser\s*<[^>]*>)\s*where(.*)$", head, re.S)
+    if not m:
+        raise ExtractError("driver block: unexpected impl header shape")
+    generics, self_ty, where = m.group(1), m.group(2), m.group(3).rstrip()
+    sha = hashlib.sha256(block_text.encode()).hexdigest()[:16]
+    a, z = src.line_of(t[lo].s), src.line_of(t[hi].s)
+    meta = {"lift": "driver_block", "file": rel, "lines": [a, z], "sha256_16": sha, "free_variables": DRIVER_DECLARED,
+            "note": "`builder` is a RefMut<B> in the source (`self.builder.borrow_mut()`); the lifted parameter is `&mut B`: every use in the range is a "
+                    "method call that auto-derefs to the same `B` method.  `parse_stack` and `layout_parser` are locals of the source function and by-value "
+                    "parameters here.  The three statements in front of the range (ParseStack::new, borrow_mut, layout-parser construction) are NOT verified; "
+                    "their text is pinned (a change is exit 2)."}
+    header = ("impl%s %s\nwhere%s\n{\n    fn driver_block(\n        &self,\n        context: &mut C,\n        input: &'i I,\n"
+              "        mut parse_stack: ParseStack<S, I, C, TK>,\n        builder: &mut B,\n"
+              "        layout_parser: LayoutParser<'i, C, S, P, TK, NTK, D, L, I>,\n    ) -> Result<B::Output> {\n        ") % (generics, self_ty, where)
+    return header + block_text + "}\n}\n", meta
+
+
+def verus_driver_source(repo):
+    return driver_block_range(repo)
+
+
+VERUS_LIFTS = {"conflict_block": verus_conflict_source, "driver_block": verus_driver_source}
+
+
 def lift_conflict_block(repo, gen):
     block_text, then_body, meta = conflict_block_range(repo)
     rel, declared, sha = meta["file"], meta["free_variables"], meta["sha256_16"]
